@@ -11,9 +11,11 @@ import (
 
 	sdkmath "cosmossdk.io/math"
 	sdk "github.com/cosmos/cosmos-sdk/types"
+	authtypes "github.com/cosmos/cosmos-sdk/x/auth/types"
 	banktypes "github.com/cosmos/cosmos-sdk/x/bank/types"
 
 	simapp "github.com/provenance-io/provenance/app"
+	markertypes "github.com/provenance-io/provenance/x/marker/types"
 	"github.com/provenance-io/provenance/x/quarantine"
 	quarantinekeeper "github.com/provenance-io/provenance/x/quarantine/keeper"
 )
@@ -25,6 +27,7 @@ type c07Env struct {
 	accts  []sdk.AccAddress // accts[0] is the quarantine funds holder
 	ids    map[string]int
 	denoms []string
+	xfer   map[string]map[string]bool // restricted denom -> addresses with Access_Transfer (current history)
 }
 
 func (e *c07Env) pos(a sdk.AccAddress) string { return fmt.Sprintf("%d%%positive", e.ids[string(a)]) }
@@ -112,6 +115,30 @@ type c07Op struct {
 	desc string
 	kind string
 	run  func(ctx sdk.Context) (sdk.Coins, error)
+	// needsXfer: some pair of the transfer carries a restricted coin whose sender has no Access_Transfer
+	needsXfer bool
+}
+
+// lacksXfer: the sender may not move some restricted coin among cs.
+func (e *c07Env) lacksXfer(from sdk.AccAddress, cs sdk.Coins) bool {
+	for _, c := range cs {
+		if can := e.xfer[c.Denom]; can != nil && !can[string(from)] {
+			return true
+		}
+	}
+	return false
+}
+
+func (e *c07Env) acceptOp(to sdk.AccAddress, froms []sdk.AccAddress, perm bool) c07Op {
+	msg := &quarantine.MsgAccept{ToAddress: to.String(), FromAddresses: strs(froms), Permanent: perm}
+	return c07Op{kind: "accept", term: "OAccept " + e.pos(to) + " " + e.posList(froms) + " " + coqBool(perm),
+		desc: fmt.Sprintf("accept %s<%s perm=%v", e.short([]sdk.AccAddress{to}), e.short(froms), perm), run: e.viaRouter(msg)}
+}
+
+func (e *c07Env) declineOp(to sdk.AccAddress, froms []sdk.AccAddress, perm bool) c07Op {
+	msg := &quarantine.MsgDecline{ToAddress: to.String(), FromAddresses: strs(froms), Permanent: perm}
+	return c07Op{kind: "decline", term: "ODecline " + e.pos(to) + " " + e.posList(froms) + " " + coqBool(perm),
+		desc: fmt.Sprintf("decline %s<%s perm=%v", e.short([]sdk.AccAddress{to}), e.short(froms), perm), run: e.viaRouter(msg)}
 }
 
 func (e *c07Env) viaRouter(msg sdk.Msg) func(ctx sdk.Context) (sdk.Coins, error) {
@@ -170,7 +197,12 @@ func TestC07(t *testing.T) {
 	r := newRand("C07")
 	w := NewCaseWriter("C07", "PV.Corr.C07", "check_all", 60)
 	app, baseCtx := newApp(t)
-	e := &c07Env{app: app, ids: map[string]int{}, denoms: []string{"aacoin", "bbcoin", "cccoin"}}
+	// bbrcoin and ccrcoin are, in most histories, RESTRICTED marker coins (active marker, no required
+	// attributes): only holders of Access_Transfer may send them; the quarantine holder pays them out as
+	// a required-attribute bypass address.  In the other histories they are plain bank coins.
+	e := &c07Env{app: app, ids: map[string]int{}, denoms: []string{"aacoin", "bbrcoin", "ccrcoin"}}
+	admin := addrN(799)
+	ensureAccount(app, baseCtx, admin)
 	holder := app.QuarantineKeeper.GetFundsHolder()
 	e.accts = []sdk.AccAddress{holder}
 	const nFunded = 5
@@ -227,6 +259,45 @@ func TestC07(t *testing.T) {
 		dens = e.denoms[:nDen]
 		nAcc := 4 + r.Intn(2)
 		players := funded[:nAcc]
+		// ---- restricted markers of this history and who holds Access_Transfer on them
+		xfer := map[string]map[string]bool{}
+		var gXfer []string
+		for _, d := range dens[1:] {
+			if r.Intn(4) == 0 {
+				continue // a plain coin in this history
+			}
+			can := map[string]bool{}
+			var canAddrs []sdk.AccAddress
+			grants := []markertypes.AccessGrant{*markertypes.NewAccessGrant(admin, markertypes.AccessList{markertypes.Access_Withdraw, markertypes.Access_Admin})}
+			for i, a := range players {
+				if i < 2 || r.Intn(5) != 0 { // at least two senders, usually all but one
+					can[string(a)] = true
+					canAddrs = append(canAddrs, a)
+					grants = append(grants, *markertypes.NewAccessGrant(a, markertypes.AccessList{markertypes.Access_Transfer}))
+				}
+			}
+			ma := markertypes.NewMarkerAccount(authtypes.NewBaseAccountWithAddress(markertypes.MustGetMarkerAddress(d)),
+				sdk.NewInt64Coin(d, 1_000_000), admin, grants, markertypes.StatusProposed, markertypes.MarkerType_RestrictedCoin, true, true, false, nil)
+			if err := app.MarkerKeeper.AddFinalizeAndActivateMarker(ctx, ma); err != nil {
+				t.Fatalf("restricted marker %s: %v", d, err)
+			}
+			xfer[d] = can
+			gXfer = append(gXfer, fmt.Sprintf("(%d%%positive, %s)", e.denomID(d), e.posList(canAddrs)))
+			w.Count("restricted_marker_denoms")
+		}
+		e.xfer = xfer
+		// give: plain coins are minted, restricted coins are withdrawn from their marker
+		give := func(a sdk.AccAddress, cs sdk.Coins) {
+			for _, c := range cs {
+				if xfer[c.Denom] != nil {
+					if err := app.MarkerKeeper.WithdrawCoins(ctx, admin, a, c.Denom, sdk.NewCoins(c)); err != nil {
+						t.Fatalf("withdraw %s to %s: %v", c, a, err)
+					}
+				} else {
+					fund(t, app, ctx, a, sdk.NewCoins(c))
+				}
+			}
+		}
 		for _, a := range players {
 			var cs sdk.Coins
 			for _, d := range dens {
@@ -235,7 +306,7 @@ func TestC07(t *testing.T) {
 				}
 			}
 			if !cs.IsZero() {
-				fund(t, app, ctx, a, cs)
+				give(a, cs)
 			}
 		}
 
@@ -293,7 +364,7 @@ func TestC07(t *testing.T) {
 			if r.Intn(5) == 0 { // the holder sometimes has more than the records need
 				extra = cs.Add(sdk.NewInt64Coin(dens[0], 1+r.Int63n(9)))
 			}
-			fund(t, app, ctx, holder, extra)
+			give(holder, extra)
 			if len(froms) > 1 {
 				w.Count("genesis_multi_sender_records")
 			}
@@ -308,15 +379,52 @@ func TestC07(t *testing.T) {
 			}
 		}
 		genesis := "{| g_optin := " + coqList(gOpt) + "; g_auto := " + coqList(gAuto) + "; g_funds := " + coqList(gFunds) +
-			"; g_bal := " + coqList(gBal) + " |}"
+			"; g_bal := " + coqList(gBal) + "; g_xfer := " + coqList(gXfer) + " |}"
 		obs0 := e.observe(ctx, true, nil)
 
 		// ---- operations
 		nOps := 10 + r.Intn(31)
 		var steps, descs []string
-		var nQuarantined, nPayout, nPartial, nTopUp int
+		var nQuarantined, nPayout, nPartial, nTopUp, nRevoked, nRestrQ, nRestrPaid, nNoXfer int
+		// ---- a scripted answer sequence on one multi-sender genesis record, interleaved with the random
+		// operations: accept one sender, get the record flagged declined through another sender, decline the
+		// accepted sender (its acceptance is revoked), accept the others, finally accept everybody.
+		var script []c07Op
+		var multi []*quarantine.QuarantinedFunds
+		for _, qf := range gs.QuarantinedFunds {
+			if len(qf.UnacceptedFromAddresses) > 1 {
+				multi = append(multi, qf)
+			}
+		}
+		if len(multi) > 0 && r.Intn(10) < 7 {
+			qf := multi[r.Intn(len(multi))]
+			to := sdk.MustAccAddressFromBech32(qf.ToAddress)
+			var fs []sdk.AccAddress
+			for _, f := range qf.UnacceptedFromAddresses {
+				fs = append(fs, sdk.MustAccAddressFromBech32(f))
+			}
+			r.Shuffle(len(fs), func(i, j int) { fs[i], fs[j] = fs[j], fs[i] })
+			a, rest := fs[:1], fs[1:]
+			switch r.Intn(4) {
+			case 0, 1: // Accept A; Decline B..; Decline A; Accept B..; Accept A
+				script = []c07Op{e.acceptOp(to, a, false), e.declineOp(to, rest[:1], false), e.declineOp(to, a, false),
+					e.acceptOp(to, rest, false), e.acceptOp(to, a, false)}
+			case 2: // the record is flagged through a permanent decline set before the partial accept
+				script = []c07Op{e.declineOp(to, rest[:1], true), e.acceptOp(to, a, false), e.declineOp(to, a, false),
+					e.acceptOp(to, rest, r.Intn(2) == 0), e.acceptOp(to, fs, false)}
+			default: // accept all but one, decline one of the accepted together with the last, accept the last
+				script = []c07Op{e.acceptOp(to, rest, false), e.declineOp(to, a, false), e.declineOp(to, fs[len(fs)-1:], false),
+					e.acceptOp(to, a, false), e.acceptOp(to, fs, false)}
+			}
+			w.Count("scripted_decline_after_accept_sequences")
+		}
 		for oi := 0; oi < nOps; oi++ {
-			op := genC07Op(e, r, ctx, players, people, stranger, dens, pick, someCoins)
+			var op c07Op
+			if len(script) > 0 && r.Intn(3) != 0 {
+				op, script = script[0], script[1:]
+			} else {
+				op = genC07Op(e, r, ctx, players, people, stranger, dens, pick, someCoins)
+			}
 			before := e.records(ctx)
 			holderBefore := app.BankKeeper.GetAllBalances(ctx, holder)
 			opCtx, write := ctx.CacheContext()
@@ -344,12 +452,23 @@ func TestC07(t *testing.T) {
 				totalOK++
 				w.Count("op_" + op.kind + "_accepted")
 				holderAfter := app.BankKeeper.GetAllBalances(ctx, holder)
+				restricted := func(cs sdk.Coins) bool {
+					for _, c := range cs {
+						if xfer[c.Denom] != nil {
+							return true
+						}
+					}
+					return false
+				}
 				switch op.kind {
 				case "send", "multi_send", "multi_in":
 					if !holderAfter.Equal(holderBefore) {
 						nQuarantined++
 						if len(after) == len(before) {
 							nTopUp++
+						}
+						if diff, _ := holderAfter.SafeSub(holderBefore...); restricted(diff) {
+							nRestrQ++
 						}
 					}
 				case "accept":
@@ -360,13 +479,26 @@ func TestC07(t *testing.T) {
 					} else if sumAcc(after) > sumAcc(before) {
 						nPartial++
 					}
+					if restricted(rel) {
+						nRestrPaid++
+					}
+				case "decline":
+					if sumAcc(after) < sumAcc(before) {
+						nRevoked++
+					}
 				}
+			} else if op.needsXfer {
+				nNoXfer++
 			}
 		}
 		w.CountN("quarantined_transfers", int64(nQuarantined))
 		w.CountN("top_ups", int64(nTopUp))
 		w.CountN("payouts", int64(nPayout))
 		w.CountN("partial_accepts", int64(nPartial))
+		w.CountN("declines_revoking_an_acceptance", int64(nRevoked))
+		w.CountN("quarantined_transfers_with_restricted_coins", int64(nRestrQ))
+		w.CountN("payouts_with_restricted_coins", int64(nRestrPaid))
+		w.CountN("rejected_restricted_sender_without_transfer_access", int64(nNoXfer))
 		w.CountN(fmt.Sprintf("history_len_%02d_%02d", nOps/10*10, nOps/10*10+9), 1)
 		if nQuarantined > 0 && nPayout > 0 {
 			w.Nontrivial(strings.Join(descs, ";"))
@@ -375,8 +507,8 @@ func TestC07(t *testing.T) {
 		for _, a := range e.accts {
 			accItems = append(accItems, e.pos(a))
 		}
-		for i := range dens {
-			denItems = append(denItems, fmt.Sprintf("%d%%positive", i+1))
+		for _, d := range dens {
+			denItems = append(denItems, fmt.Sprintf("%d%%positive", e.denomID(d)))
 		}
 		term := "CHist " + e.pos(holder) + " " + coqList(accItems) + " " + coqList(denItems) + "\n    " + genesis + "\n    (" + obs0 + ")\n    [" +
 			strings.Join(steps, ";\n     ") + "]"
@@ -471,7 +603,7 @@ func genC07Op(e *c07Env, r *rand.Rand, ctx sdk.Context, players, people []sdk.Ac
 			cs = sdk.Coins{sdk.NewInt64Coin(dens[0], 1), sdk.NewInt64Coin(dens[0], 2)}
 		}
 		msg := &banktypes.MsgSend{FromAddress: from.String(), ToAddress: to.String(), Amount: cs}
-		return c07Op{kind: "send", term: "OSend " + e.pos(from) + " " + e.pos(to) + " " + e.coins(cs),
+		return c07Op{kind: "send", term: "OSend " + e.pos(from) + " " + e.pos(to) + " " + e.coins(cs), needsXfer: e.lacksXfer(from, cs),
 			desc: fmt.Sprintf("send %s>%s %s", e.short([]sdk.AccAddress{from}), e.short([]sdk.AccAddress{to}), cs), run: e.viaRouter(msg)}
 	case k < 56: // MsgMultiSend: one input, 1..3 outputs (receivers may repeat)
 		from := pick(players)
@@ -500,7 +632,7 @@ func genC07Op(e *c07Env, r *rand.Rand, ctx sdk.Context, players, people []sdk.Ac
 			in = total.Add(sdk.NewInt64Coin(dens[0], 1))
 		}
 		msg := &banktypes.MsgMultiSend{Inputs: []banktypes.Input{{Address: from.String(), Coins: in}}, Outputs: outs}
-		return c07Op{kind: "multi_send", term: "OMulti " + e.pos(from) + " " + e.coins(in) + " " + coqList(outTerms),
+		return c07Op{kind: "multi_send", term: "OMulti " + e.pos(from) + " " + e.coins(in) + " " + coqList(outTerms), needsXfer: e.lacksXfer(from, total),
 			desc: fmt.Sprintf("multisend %s>%s %s", e.short([]sdk.AccAddress{from}), e.short(tos), in), run: e.viaRouter(msg)}
 	case k < 62: // many inputs, one output, through the bank keeper
 		to := pick(players)
@@ -526,7 +658,11 @@ func genC07Op(e *c07Env, r *rand.Rand, ctx sdk.Context, players, people []sdk.Ac
 			inTerms = append(inTerms, "("+e.pos(from)+", "+e.coins(cs)+")")
 		}
 		outs := []banktypes.Output{{Address: to.String(), Coins: total}}
-		return c07Op{kind: "multi_in", term: "OMultiIn " + coqList(inTerms) + " " + e.pos(to),
+		lacks := false
+		for _, in := range ins {
+			lacks = lacks || e.lacksXfer(sdk.MustAccAddressFromBech32(in.Address), in.Coins)
+		}
+		return c07Op{kind: "multi_in", term: "OMultiIn " + coqList(inTerms) + " " + e.pos(to), needsXfer: lacks,
 			desc: fmt.Sprintf("multiin %s>%s %s", e.short(froms), e.short([]sdk.AccAddress{to}), total),
 			run: func(ctx sdk.Context) (sdk.Coins, error) {
 				if len(ins) == 0 {
@@ -536,16 +672,10 @@ func genC07Op(e *c07Env, r *rand.Rand, ctx sdk.Context, players, people []sdk.Ac
 			}}
 	case k < 82:
 		to, froms := namedSenders()
-		perm := r.Intn(5) == 0
-		msg := &quarantine.MsgAccept{ToAddress: to.String(), FromAddresses: strs(froms), Permanent: perm}
-		return c07Op{kind: "accept", term: "OAccept " + e.pos(to) + " " + e.posList(froms) + " " + coqBool(perm),
-			desc: fmt.Sprintf("accept %s<%s perm=%v", e.short([]sdk.AccAddress{to}), e.short(froms), perm), run: e.viaRouter(msg)}
+		return e.acceptOp(to, froms, r.Intn(5) == 0)
 	case k < 91:
 		to, froms := namedSenders()
-		perm := r.Intn(4) == 0
-		msg := &quarantine.MsgDecline{ToAddress: to.String(), FromAddresses: strs(froms), Permanent: perm}
-		return c07Op{kind: "decline", term: "ODecline " + e.pos(to) + " " + e.posList(froms) + " " + coqBool(perm),
-			desc: fmt.Sprintf("decline %s<%s perm=%v", e.short([]sdk.AccAddress{to}), e.short(froms), perm), run: e.viaRouter(msg)}
+		return e.declineOp(to, froms, r.Intn(4) == 0)
 	default:
 		to := pick(players)
 		n := r.Intn(4)
